@@ -111,6 +111,22 @@ spec fn step_ok_rename(w: World, a: Seq<char>, b: Seq<char>) -> bool {
     }
 }
 
+// crash-step obligation of removing a file: what it holds is held by another owned file as well (nothing is lost, C08)
+spec fn step_ok_remove(w: World, a: Seq<char>) -> bool {
+    owned(w, a) && (w.files.contains_key(a) ==> exists|q: Seq<char>| #![trigger w.files[q]] q != a && w.files.contains_key(q) && owned(w, q) && sha256(w.files[q].content) == sha256(w.files[a].content))
+}
+proof fn remove_keeps(w: World, w2: World, a: Seq<char>)
+    requires step_ok_remove(w, a), w.files.contains_key(a), same_consts(w, w2), w2.files == w.files.remove(a),
+    ensures kept(w, w2), inv_cache(w) ==> inv_cache(w2)
+{
+    let q0 = choose|q: Seq<char>| #![trigger w.files[q]] q != a && w.files.contains_key(q) && owned(w, q) && sha256(w.files[q].content) == sha256(w.files[a].content);
+    assert forall|h: Seq<u8>| #![trigger holds(w, h)] holds(w, h) implies holds(w2, h) by {
+        let q = choose|q: Seq<char>| #![trigger w.files[q]] w.files.contains_key(q) && owned(w, q) && sha256(w.files[q].content) == h;
+        if q == a { assert(w2.files.contains_key(q0) && w2.files[q0] == w.files[q0]); assert(owned(w2, q0)); holds_intro(w2, h, q0); }
+        else { assert(w2.files.contains_key(q) && w2.files[q] == w.files[q]); assert(owned(w2, q)); holds_intro(w2, h, q); }
+    }
+}
+
 // a successful rename under the step obligation loses nothing (C08) and keeps the cache invariant (C07)
 proof fn rename_keeps(w: World, w2: World, a: Seq<char>, b: Seq<char>)
     requires step_ok_rename(w, a, b), w.files.contains_key(a), same_consts(w, w2),
